@@ -330,6 +330,23 @@ func (f *Func) reachTarget(
 ) (map[interface{}]reflect.Value, error) {
 	log.Trace("reachTarget", "target", target)
 
+	// If we are already in the process of reaching this target further up
+	// the stack, then the target (transitively) depends on itself and can
+	// never be satisfied. Without this check we would recurse forever.
+	targetID := graph.VertexID(target)
+	if _, ok := state.Reaching[targetID]; ok {
+		var unsatisfied []*Value
+		for _, out := range g.OutEdges(target) {
+			if valueable, ok := out.(valueConverter); ok {
+				unsatisfied = append(unsatisfied, valueable.value())
+			}
+		}
+
+		return nil, &ErrArgumentUnsatisfied{Func: f, Args: unsatisfied}
+	}
+	state.Reaching[targetID] = struct{}{}
+	defer delete(state.Reaching, targetID)
+
 	// argMap will store all the values that this target depends on.
 	argMap := map[interface{}]reflect.Value{}
 
@@ -623,6 +640,11 @@ type callState struct {
 
 	// TODO
 	InputSet map[interface{}]graph.Vertex
+
+	// Reaching is the set of targets (by vertex ID) that are currently
+	// being reached further up the stack. This is used to detect functions
+	// that transitively depend on themselves.
+	Reaching map[interface{}]struct{}
 }
 
 func newCallState() *callState {
@@ -630,5 +652,6 @@ func newCallState() *callState {
 		NamedValue: map[string]reflect.Value{},
 		TypedValue: map[reflect.Type]reflect.Value{},
 		InputSet:   map[interface{}]graph.Vertex{},
+		Reaching:   map[interface{}]struct{}{},
 	}
 }
